@@ -29,6 +29,9 @@ def make_mm():
             A.eStructuralFeatures.extend([fa, fr])
             feats[('attr', o, u)] = fa
             feats[('ref', o, u)] = fr
+            fc = EReference(f'c_{int(o)}{int(u)}', B, upper=-1, ordered=o, unique=u, containment=True)
+            A.eStructuralFeatures.append(fc)
+            feats[('cont', o, u)] = fc
     return A, B, feats
 
 
@@ -39,7 +42,11 @@ class Impl:
         self.a = A()
         self.kind = kind
         self.feat = feat
-        if kind == 'ref':
+        if kind == 'cont':
+            # fresh children for every collection: a child still (or wrongly still) attached to the collection of an
+            # earlier exploration step would be pulled out of it, which is C02's subject, not C04's
+            objs = [B() for _ in univ_tokens]
+        if kind in ('ref', 'cont'):
             self.objs = objs
             self.tok2v = {t: objs[i] for i, t in enumerate(univ_tokens)}
             self.v2tok = {id(o): t for t, o in self.tok2v.items()}
@@ -47,10 +54,10 @@ class Impl:
         self.c = self.a.eGet(feat.name)
 
     def v(self, t):
-        return self.tok2v[t] if self.kind == 'ref' else t
+        return self.tok2v[t] if self.kind != 'attr' else t
 
     def t(self, v):
-        return self.v2tok[id(v)] if self.kind == 'ref' else v
+        return self.v2tok[id(v)] if self.kind != 'attr' else v
 
     def apply(self, op):
         c = self.c
@@ -245,7 +252,7 @@ def signature(clause, op, decl, pre_items):
 def explore(out, model, A, B, feats, decl, univ, maxlen, thorough, stats):
     kind, ordered, unique = decl
     feat = feats[decl]
-    objs = [B() for _ in univ] if kind == 'ref' else None
+    objs = [B() for _ in univ] if kind != 'attr' else None
     mode = 1 if unique else 0
     start = ()
     seen = {start: []}      # obs-key -> shortest path (list of ops)
@@ -330,12 +337,12 @@ def run(ctx, out):
     stats = {'transitions': 0, 'states': 0, 'ops': {}, 'outcomes': {}, 'samples': [], 'per_decl': {}}
     univ_u = [10, 20, -1, 30] if not thorough else [10, 20, -1, 30, 0]
     univ_l = [10, -1, 20] if not thorough else [10, -1, 20, 0]
-    for kind in ('attr', 'ref'):
+    for kind in ('attr', 'ref', 'cont'):
         for ordered in (True, False):
             for unique in (True, False):
                 decl = (kind, ordered, unique)
                 univ = univ_u if unique else univ_l
-                if kind == 'ref':
+                if kind != 'attr':
                     univ = list(range(1, len(univ) + 1))
                 maxlen = len(univ) if unique else (3 if not thorough else 4)
                 n = explore(out, model, A, B, feats, decl, univ, maxlen, thorough, stats)
@@ -369,7 +376,7 @@ def replay(ctx, rep):
     d = case['decl']
     decl = (d['kind'], d['ordered'], d['unique'])
     univ = case['universe']
-    objs = [B() for _ in univ] if d['kind'] == 'ref' else None
+    objs = [B() for _ in univ] if d['kind'] != 'attr' else None
     impl = Impl(A, B, feats[decl], d['kind'], univ, objs)
     L = []
     for p in case['path'] + [case['op']]:
@@ -456,3 +463,75 @@ def replay(ctx, rep):   # noqa: F811
     if rep.get('case', {}).get('scenario'):
         return common.scenario_replay(ctx, rep, {'redeclared': redeclared_scenarios})
     return _replay0(ctx, rep)
+
+
+def live_argument_scenarios(ctx, out):
+    """extend / update / += whose ARGUMENT is the live collection of another object (b.items.extend(a.items)), or the
+    receiver itself: the receiver ends as a plain list extended by a snapshot of the argument would (elements already
+    present ignored when unique), for attributes, references and containment references of the four declarations."""
+    common.use_repo()
+    rng = common.rng_for(ctx.seed, 'C04:live')
+    A, B, feats = make_mm()
+    n = 120 if ctx.tier != 'thorough' else 3000
+    cnt = 0
+    for it in range(n):
+        kind = rng.choice(['attr', 'ref', 'cont'])
+        ordered, unique = rng.random() < 0.5, rng.random() < 0.5
+        decl = (kind, ordered, unique)
+        feat = feats[decl]
+        univ = [10, 20, -1, 30, 40] if kind == 'attr' else [1, 2, 3, 4, 5]
+        objs = [B() for _ in univ] if kind != 'attr' else None
+        src = Impl(A, B, feat, kind, univ, objs)
+        dst = Impl(A, B, feat, kind, univ, objs)
+        if kind == 'cont':
+            # one family of children for both owners (a child moves from one to the other)
+            dst.objs, dst.tok2v, dst.v2tok = src.objs, src.tok2v, src.v2tok
+        Ls, Ld = [], []
+        hist = [['declare', kind, ordered, unique]]
+        for who, impl, L in (('src', src, Ls), ('dst', dst, Ld)):
+            for _ in range(rng.randrange(0, 5)):
+                x = rng.choice(univ)
+                if kind == 'cont' and (x in Ls or x in Ld):
+                    continue            # containment: a child sits in one place
+                impl.apply(('append', x, 'append'))
+                spec_apply(L, ('append', x, 'append'), unique)
+                hist.append(['append', who, x])
+        how = rng.choice(['extend', 'iadd'] + (['update'] if unique else []))
+        same = rng.random() < 0.15
+        arg_impl = dst if same else src
+        snapshot = list(Ld if same else Ls)
+        hist.append([how, 'dst', 'dst' if same else 'src'])
+        try:
+            c = dst.c
+            if how == 'iadd':
+                c += arg_impl.c
+            else:
+                getattr(c, how)(arg_impl.c)
+            raised = None
+        except Exception as e:  # noqa
+            raised = type(e).__name__
+        spec_apply(Ld, ('extend', snapshot, how), unique)
+        cnt += 1
+        o, so = dst.obs(), spec_obs(Ld, univ)
+        if raised is not None or o != so:
+            sig = {'property': 'C04', 'clause': 'live-collection-argument', 'culprit': how, 'qualifiers': ['self'] if same else [],
+                   'shape': {'kind': kind, 'unique': unique}}
+            out.fail(sig, f'{how} with the live collection of {"the receiver itself" if same else "another object"} '
+                          f'({snapshot}) onto {hist}: raised {raised}; receiver {o[1:1 + o[0]]} vs list {so[1:1 + so[0]]}',
+                     {'scenario': 'live', 'seed': ctx.seed, 'tier': ctx.tier, 'history': hist})
+    out.coverage['live_argument_bulk_calls'] = cnt
+
+
+_run1 = run
+_replay1 = replay
+
+
+def run(ctx, out):   # noqa: F811
+    _run1(ctx, out)
+    live_argument_scenarios(ctx, out)
+
+
+def replay(ctx, rep):   # noqa: F811
+    if rep.get('case', {}).get('scenario') == 'live':
+        return common.scenario_replay(ctx, rep, {'live': live_argument_scenarios})
+    return _replay1(ctx, rep)
